@@ -152,6 +152,7 @@ func (n *vnode) info(name string) os.FileInfo {
 
 // vfs implements all handler interfaces; which optional ones are visible is decided by the wrapper types below.
 type vfs struct {
+	delay      func() // optional: called at the start of every ReadAt / WriteAt handler call (schedule perturbation)
 	quiet      bool
 	calls      int64 // number of handler / object method invocations (atomic)
 	mu         sync.Mutex
@@ -260,6 +261,9 @@ func (v *vfs) nObjs() int {
 }
 
 func (o *vobj) begin(rw string, off int64, n int) {
+	if d := o.v.delay; d != nil {
+		d()
+	}
 	atomic.AddInt64(&o.v.calls, 1)
 	o.mu.Lock()
 	o.inflt++
